@@ -6,8 +6,10 @@ package command
 
 //@ func Decode
 //@   property C16
-//@   tag decoder
+//@   tag decoder ghost-pure
 //@   alloc data
 //@   ensures [total] true
 //@   ensures [no-prefix-no-command] (len(data) == 0 || old(data[0]) != 206) ==> !result1 && result2 == nil && result == nil
 //@   ensures [command-flag] result1 ==> len(data) > 0 && old(data[0]) == 206
+//@   ensures [command-has-request] result1 && result2 == nil ==> result != nil
+//@   modifies nothing
